@@ -65,7 +65,12 @@ pub(super) fn last_common_ancestor<S: Storage>(
 /// Number of Location entries per braid buffer block. Sized to batch
 /// disk I/O into reasonably large writes without holding too many
 /// entries in memory per spill.
+#[cfg(not(aranya_core_verif))]
 const BRAID_BLOCK_ENTRIES: usize = 256;
+/// Verification builds (`--cfg aranya_core_verif`) spill after a handful of entries so
+/// that small-scope exhaustive exploration crosses the block boundary.
+#[cfg(aranya_core_verif)]
+const BRAID_BLOCK_ENTRIES: usize = 4;
 
 /// Accumulates braid locations and iterates them in reverse push order.
 pub(super) struct BraidResult<F> {
